@@ -224,7 +224,18 @@ func c06Judge(c *Ctx, cs *Case) {
 		c.Nontrivial("cli|" + cs.Src)
 		return
 	}
-	v, m, _ := stdJudge(c, cs, RunOpts{Events: "io"}, JudgeOpts{Events: true})
+	var v string
+	var m *ModelOut
+	if cs.Gen == "long-runs" {
+		m = RunModel(cs.Src, cs.Stdin, false, 200000000)
+		if m.Res == nil || m.Res.OOD != "" {
+			c.Count("skipped_out_of_domain", 1)
+			return
+		}
+		v = CompareModel(c, m, RunLib(cs.Src, RunOpts{MaxSteps: int64(3*m.Res.Steps + 10000), Stdin: cs.Stdin}), JudgeOpts{})
+	} else {
+		v, m, _ = stdJudge(c, cs, RunOpts{Events: "io"}, JudgeOpts{Events: true})
+	}
 	if v == "" && m.Res != nil {
 		if m.Res.Fault != nil {
 			c.Nontrivial(cs.Src)
@@ -289,6 +300,18 @@ func c06Run(c *Ctx) {
 		}
 		if c.Mine() {
 			c06Judge(c, &Case{Gen: "fault-free-controls-cli", Mode: "cli", Src: src, Stdin: stdin})
+		}
+	}
+	// long runs: 260 000 value-returning calls / built-in calls / loop rounds, then either nothing or one late fault
+	for _, warm := range []string{
+		Fun("isOdd", "n", " "+Ret("n % 2 == 1")+" ") + "\n" + Var("odd", "0") + "\n" + For(Var("i", "0"), "i < 260000", "i = i + 1", "{ "+If("isOdd(i)", "{ odd = odd + 1; }")+" }") + "\n" + Print("odd"),
+		Var("acc", "0") + "\n" + For(Var("i", "0"), "i < 260000", "i = i + 1", "{ acc = acc + "+BI("abs", "-1")+"; }") + "\n" + Print("acc"),
+		Fun("proc", "n", " "+Var("t", "n")+" ") + "\n" + For(Var("i", "0"), "i < 260000", "i = i + 1", "{ proc(i); }") + "\n" + Print(`"warm"`),
+	} {
+		for _, tail := range []string{Print(`"done"`), Fun("late", "", " "+Ret("1 / 0")+" ") + "\n" + Print(`"before-late"`) + "\n" + Print("late()") + "\n" + Print(`"AFTER-1"`), Fun("ok", "v", " "+Ret("v + 1")+" ") + "\n" + Print("ok(1)") + "\n" + Print("arr2[0]") + "\n" + Print(`"AFTER-1"`)} {
+			if c.Mine() {
+				c06Judge(c, &Case{Gen: "long-runs", Src: warm + "\n" + tail + "\n", Stdin: stdin, X: map[string]string{"model_steps": "1"}})
+			}
 		}
 	}
 	// programs that perform no operation at all are fault-free too
